@@ -94,6 +94,7 @@ for prop in ("C06",):
 open_("D31b", "C12", "rows whose payload needs overflow pages break the tree within a handful of inserts (panic at storage/core/buffer.rs:570, 'Buffer overflow ... on a btreepage')", "O-res", "rows_with_overflow_chains", "findings/D31b-rows-with-overflow-chains-break-the-tree-within-a-few-inserts.json")
 fixed("D17b", "C15", "e1d3627", "ALTER TABLE ... DROP COLUMN of the last column can leave the table unreadable (panic at storage/tuple.rs:297) - another symptom of V2 (the delta walk read a header from alignment padding); the reproducer runs clean since that repair", "O-state", "findings/D17b-alter-drop-last-column-leaves-table-unreadable.json")
 open_("X1b", "C15", "CREATE UNIQUE INDEX in autocommit while an older session is open: that session can no longer use the table ('Table not found N')", "O-res", "create_index_inside_session", "findings/X1b-create-index-while-older-session-open-hides-table-from-it.json")
+open_("X2", "C15", "DROP TABLE without CASCADE leaves the table's named indexes in the catalog: CREATE UNIQUE INDEX with the name of an index of a dropped table fails with 'already exists', and the orphan index keeps its pages for ever (DROP TABLE ... CASCADE removes them)", "O-res", "index_name_of_dropped_table_reused", "findings/X2-plain-drop-table-leaves-its-named-indexes-in-the-catalog.json")
 fixed("X3", "C15", "b57c28d", "a UNIQUE index over columns of different types listed out of table order panicked (types/core.rs:333) on the first duplicate probe", "O-res", "findings/X3-multi-column-index-out-of-table-order-panics-on-duplicate.json")
 
 # ---- open findings: B+tree (C10 / C11) ----
